@@ -205,7 +205,7 @@ class _BurstReader:
 
 # ===================================================================================================== workload
 class _Workload:
-    def __init__(self, world: World, name: str, *, max_extra_senders: int = 4, max_packets: int = 4):
+    def __init__(self, world: World, name: str, *, max_extra_senders: int = 4, max_packets: int = 4, timed: bool = False):
         self.world = world
         self.name = name
         # a third of the runs are fault-free baselines (profile 0): roomy link, greedy peer, no injected socket behaviour
@@ -232,6 +232,19 @@ class _Workload:
             self.eintr_den = draw_rate(world, "sw.eintr", (0, 0, 0, 6))
         self.calls: list[tuple[int, int, str]] = []  # (sender, seq, outcome)
         self.inflight = 0
+        # threaded harnesses: some calls are send_packet(packet, timeout=T), T in {0, half a tick}, issued only while another
+        # call is outstanding, so that they normally time out waiting for the client's send lock.  TimeoutError is an
+        # allowed outcome for THAT call only; its packet must then be absent from the wire.
+        self.timeouts: dict[tuple[int, int], float] = {}
+        self.touched: set[str] = set()  # names of threads whose current call reached the socket's send
+        self.stream_broken_by_timeout = False
+        if timed and not self.baseline:
+            for lst in self.plan:
+                for _, pk in lst:
+                    t = (None, None, 0.0, 0.0, TICK / 2)[world.choose("call.timeout", 5)]
+                    if t is not None:
+                        self.timeouts[(pk[0], pk[1])] = t
+            world.notes.update(call_timeouts=sorted((k[0], k[1], v) for k, v in self.timeouts.items()))
         self.total_bytes = sum(8 + p[2] + 1 for lst in self.plan for _, p in lst)
         if self.capacity < self.total_bytes:
             world.fault("capacity_small")
@@ -248,10 +261,20 @@ class _Workload:
             link=(self.delivery.frag, self.delivery.size, self.delivery.delays),
         )
 
-    def configure(self, net: SimNet, lib: SimSocket) -> None:
+    def configure(self, net: SimNet, lib: SimSocket, ops: tuple[str, ...] = ("send",)) -> None:
         net.short_write_den = self.short_den
-        if self.eagain_den or self.eintr_den:
-            lib.fault_plan = CallFaults(self.world, eagain_den=self.eagain_den, eintr_den=self.eintr_den, ops=("send",))
+        inner = CallFaults(self.world, eagain_den=self.eagain_den, eintr_den=self.eintr_den, ops=ops) if self.eagain_den or self.eintr_den else None
+        if self.timeouts:
+            import threading
+
+            def plan(sock: SimSocket, op: str) -> Any:
+                if op in ops:
+                    self.touched.add(threading.current_thread().name)
+                return inner(sock, op) if inner is not None else None
+
+            lib.fault_plan = plan
+        elif inner is not None:
+            lib.fault_plan = inner
 
     async def sender(self, idx: int, send_packet: Callable[[Any], Any]) -> None:
         for stagger, packet in self.plan[idx]:
@@ -278,6 +301,7 @@ class _Workload:
 
     def sender_sync(self, idx: int, send_packet: Callable[[Any], Any]) -> None:
         """thread body (threads engine: time.sleep is virtual)"""
+        import threading
         import time
 
         for stagger, packet in self.plan[idx]:
@@ -286,9 +310,27 @@ class _Workload:
             self.world.log("send_call", self.name, packet[0], packet[1])
             if self.inflight:
                 self.world.probe("call-while-%d-other-calls-outstanding" % min(self.inflight, 3))
+            tmo = self.timeouts.get((packet[0], packet[1])) if self.inflight else None
+            me = threading.current_thread().name
+            self.touched.discard(me)
             self.inflight += 1
             try:
-                send_packet(packet)
+                if tmo is None:
+                    send_packet(packet)
+                else:
+                    self.world.log("send_timed", self.name, packet[0], packet[1], tmo)
+                    send_packet(packet, timeout=tmo)
+            except TimeoutError as exc:
+                if tmo is None:
+                    self.calls.append((packet[0], packet[1], type(exc).__name__))
+                else:
+                    where = "send" if me in self.touched else "lock"
+                    self.calls.append((packet[0], packet[1], "timeout@" + where))
+                    self.world.probe("timed-call-timed-out-on-" + where)
+                    if where == "send" and self.name == "threads-tcp":
+                        # documented: after a timeout inside the write the stream is in an inconsistent state
+                        self.stream_broken_by_timeout = True
+                self.world.log("send_raised", self.name, packet[0], packet[1], type(exc).__name__)
             except Exception as exc:  # the property: every call succeeds
                 self.calls.append((packet[0], packet[1], type(exc).__name__))
                 self.world.log("send_raised", self.name, packet[0], packet[1], type(exc).__name__)
@@ -296,6 +338,8 @@ class _Workload:
                 self.calls.append((packet[0], packet[1], "ok"))
                 self.world.log("send_ok", self.name, packet[0], packet[1])
                 self.world.progress(1)
+                if tmo is not None:
+                    self.world.probe("timed-call-succeeded")
             finally:
                 self.inflight -= 1
 
@@ -331,13 +375,16 @@ class _Workload:
 
 
 def _check_calls(wl: _Workload) -> tuple[list[tuple[int, int, int]], str]:
-    sent = [p for lst in wl.plan for _, p in lst]
-    ctx = f"harness={wl.name} plan={wl.world.notes}"
-    bad = [c for c in wl.calls if c[2] != "ok"]
+    planned = [p for lst in wl.plan for _, p in lst]
+    ctx = f"harness={wl.name} plan={wl.world.notes} calls={wl.calls}"
+    # a call made with a timeout may end in TimeoutError (recorded as timeout@lock / timeout@send); nothing else may fail
+    bad = [c for c in wl.calls if c[2] != "ok" and not c[2].startswith("timeout@")]
     if bad:
         raise Violation("every-call-succeeds", f"send_packet raised for (sender, seq, exception) {bad}; {ctx}", key=f"C12/{wl.name}/call-raised/{bad[0][2]}")
-    if len(wl.calls) != len(sent):
-        raise HarnessError(f"C12 {wl.name}: {len(wl.calls)} calls recorded for {len(sent)} packets")
+    if len(wl.calls) != len(planned):
+        raise HarnessError(f"C12 {wl.name}: {len(wl.calls)} calls recorded for {len(planned)} packets")
+    ok = {(c[0], c[1]) for c in wl.calls if c[2] == "ok"}
+    sent = [p for p in planned if (p[0], p[1]) in ok]  # the wire must carry exactly the packets of the calls that returned normally
     return sent, ctx
 
 
@@ -357,6 +404,9 @@ def _check_packets(wl: _Workload, packets: list[tuple[int, int, int]], sent: lis
 def _check(wl: _Workload, reader: Any) -> None:
     """stream: `reader.received` is the byte stream the peer saw"""
     sent, ctx = _check_calls(wl)
+    if wl.stream_broken_by_timeout:
+        wl.world.probe("wire-not-checked:timeout-inside-a-write")
+        return
     wire = bytes(reader.received)
     packets, kind, err = _decode_wire(wire)
     if kind is not None:
@@ -594,7 +644,7 @@ def _h_threads_tcp(world: World) -> None:
     """2-4 real threads (baton scheduler) calling send_packet on ONE blocking TCPNetworkClient"""
     from vsim.harness import sync_engine
 
-    wl = _Workload(world, "threads-tcp", max_extra_senders=3, max_packets=3)
+    wl = _Workload(world, "threads-tcp", max_extra_senders=3, max_packets=3, timed=True)
     net = SimNet(world)
     lib, psock = net.socketpair(capacity_ab=wl.capacity, delivery_ab=wl.delivery)
     wl.configure(net, lib)
@@ -629,15 +679,14 @@ def _h_threads_udp(world: World) -> None:
 
     from vsim.harness import sync_engine
 
-    wl = _Workload(world, "threads-udp", max_extra_senders=3, max_packets=3)
+    wl = _Workload(world, "threads-udp", max_extra_senders=3, max_packets=3, timed=True)
     net = SimNet(world)
     peer = SimSocket(net, _socket.AF_INET, _socket.SOCK_DGRAM, 0, "peer")
     peer.bind(("127.0.0.1", 7000))
     lib = SimSocket(net, _socket.AF_INET, _socket.SOCK_DGRAM, 0, "lib")
     lib.bind(("127.0.0.1", 0))
     lib.connect(("127.0.0.1", 7000))
-    if wl.eagain_den or wl.eintr_den:
-        lib.fault_plan = CallFaults(world, eagain_den=wl.eagain_den, eintr_den=wl.eintr_den, ops=("sendto",))
+    wl.configure(net, lib, ops=("sendto",))
     protocol: Any = DatagramProtocol(_PacketSerializer(wl.piece))
     sched = wl.make_scheduler()
     world.sched = sched  # type: ignore[attr-defined]
